@@ -366,7 +366,7 @@ impl Entry for EOptRefStr {
 }
 
 /// `Token` (like `Tag`) encodes a single head, not always a complete item.
-pub fn head_only<E: Entry>() -> bool { E::NAME == "Tag" || E::NAME == "Token" || E::NAME == "Option<Token>" }
+pub fn head_only<E: Entry>() -> bool { E::NAME == "Tag" || E::NAME.contains("Token") || E::NAME.contains("<Tag") || E::NAME.contains("(Tag") || E::NAME.contains("[Tag") || E::NAME.contains(",Tag") }
 
 pub fn token_int(t: &Token<'_>) -> Option<i128> {
     Some(match t {
@@ -452,6 +452,184 @@ impl Entry for EVecRefStr {
     fn borrows_from<'a>(v: &Vec<&'a str>, input: &'a [u8]) -> bool { v.iter().all(|s| within(s.as_ptr(), s.len(), input)) }
 }
 
+// ---- containers over other entries -------------------------------------------------------------------------------
+// The container impls look at the next byte before handing over to the element's impl (null for `Option`, break for the
+// iterators, the tag of `Tagged`), so whether a container is right depends on what its element's encoding starts with.
+// The matrix below puts the elements with distinctive first bytes (Token - any byte including break and null -, Option,
+// unit, Tag, Tagged, byte strings, borrowed strings, floats, nested arrays) under every container shape.
+
+macro_rules! seq_of {
+    ($id:ident, $name:expr, $e:ty, $c:ident, $indef:expr) => {
+        pub struct $id;
+        impl Entry for $id {
+            const NAME: &'static str = $name;
+            const INDEF_OK: bool = $indef;
+            type Seed = Vec<<$e as Entry>::Seed>;
+            type Val<'a> = $c<<$e as Entry>::Val<'a>>;
+            fn seed(g: &mut Gen) -> Self::Seed { let n = g.len(7); (0 .. n).map(|_| <$e as Entry>::seed(g)).collect() }
+            fn view<'a>(s: &'a Self::Seed) -> Self::Val<'a> { s.iter().map(|x| <$e as Entry>::view(x)).collect() }
+            fn same<'a, 'b>(a: &Self::Val<'a>, b: &Self::Val<'b>) -> bool { a.len() == b.len() && a.iter().zip(b.iter()).all(|(x, y)| <$e as Entry>::same(x, y)) }
+            fn model<'a>(v: &Self::Val<'a>) -> Option<Item> { Some(Item::array(v.iter().map(|x| <$e as Entry>::model(x)).collect::<Option<Vec<_>>>()?)) }
+            fn borrows_from<'a>(v: &Self::Val<'a>, input: &'a [u8]) -> bool { v.iter().all(|x| <$e as Entry>::borrows_from(x, input)) }
+        }
+    }
+}
+
+macro_rules! arr2_of {
+    ($id:ident, $name:expr, $e:ty, $indef:expr) => {
+        pub struct $id;
+        impl Entry for $id {
+            const NAME: &'static str = $name;
+            const INDEF_OK: bool = $indef;
+            type Seed = [<$e as Entry>::Seed; 2];
+            type Val<'a> = [<$e as Entry>::Val<'a>; 2];
+            fn seed(g: &mut Gen) -> Self::Seed { [<$e as Entry>::seed(g), <$e as Entry>::seed(g)] }
+            fn view<'a>(s: &'a Self::Seed) -> Self::Val<'a> { [<$e as Entry>::view(&s[0]), <$e as Entry>::view(&s[1])] }
+            fn same<'a, 'b>(a: &Self::Val<'a>, b: &Self::Val<'b>) -> bool { <$e as Entry>::same(&a[0], &b[0]) && <$e as Entry>::same(&a[1], &b[1]) }
+            fn model<'a>(v: &Self::Val<'a>) -> Option<Item> { Some(Item::array(vec![<$e as Entry>::model(&v[0])?, <$e as Entry>::model(&v[1])?])) }
+            fn borrows_from<'a>(v: &Self::Val<'a>, input: &'a [u8]) -> bool { v.iter().all(|x| <$e as Entry>::borrows_from(x, input)) }
+        }
+    }
+}
+
+/// `Option<E>` for elements that never encode as null themselves, `Box<E>`.
+macro_rules! opt_of {
+    ($id:ident, $name:expr, $e:ty, $indef:expr) => {
+        pub struct $id;
+        impl Entry for $id {
+            const NAME: &'static str = $name;
+            const INDEF_OK: bool = $indef;
+            type Seed = Option<<$e as Entry>::Seed>;
+            type Val<'a> = Option<<$e as Entry>::Val<'a>>;
+            fn seed(g: &mut Gen) -> Self::Seed { if g.chance(4) { None } else { Some(<$e as Entry>::seed(g)) } }
+            fn view<'a>(s: &'a Self::Seed) -> Self::Val<'a> { s.as_ref().map(|x| <$e as Entry>::view(x)) }
+            fn same<'a, 'b>(a: &Self::Val<'a>, b: &Self::Val<'b>) -> bool { match (a, b) { (None, None) => true, (Some(x), Some(y)) => <$e as Entry>::same(x, y), _ => false } }
+            fn model<'a>(v: &Self::Val<'a>) -> Option<Item> { match v { None => Some(Item::Null), Some(x) => <$e as Entry>::model(x) } }
+            fn borrows_from<'a>(v: &Self::Val<'a>, input: &'a [u8]) -> bool { v.as_ref().map(|x| <$e as Entry>::borrows_from(x, input)).unwrap_or(true) }
+        }
+    }
+}
+
+macro_rules! box_of {
+    ($id:ident, $name:expr, $e:ty, $indef:expr) => {
+        pub struct $id;
+        impl Entry for $id {
+            const NAME: &'static str = $name;
+            const INDEF_OK: bool = $indef;
+            type Seed = <$e as Entry>::Seed;
+            type Val<'a> = Box<<$e as Entry>::Val<'a>>;
+            fn seed(g: &mut Gen) -> Self::Seed { <$e as Entry>::seed(g) }
+            fn view<'a>(s: &'a Self::Seed) -> Self::Val<'a> { Box::new(<$e as Entry>::view(s)) }
+            fn same<'a, 'b>(a: &Self::Val<'a>, b: &Self::Val<'b>) -> bool { <$e as Entry>::same(a, b) }
+            fn model<'a>(v: &Self::Val<'a>) -> Option<Item> { <$e as Entry>::model(v) }
+            fn borrows_from<'a>(v: &Self::Val<'a>, input: &'a [u8]) -> bool { <$e as Entry>::borrows_from(v, input) }
+        }
+    }
+}
+
+/// `(E, u8, E)`: an element in first and in last position of a fixed-arity array.
+macro_rules! tup_of {
+    ($id:ident, $name:expr, $e:ty, $indef:expr) => {
+        pub struct $id;
+        impl Entry for $id {
+            const NAME: &'static str = $name;
+            const INDEF_OK: bool = $indef;
+            type Seed = (<$e as Entry>::Seed, u8, <$e as Entry>::Seed);
+            type Val<'a> = (<$e as Entry>::Val<'a>, u8, <$e as Entry>::Val<'a>);
+            fn seed(g: &mut Gen) -> Self::Seed { (<$e as Entry>::seed(g), g.byte(), <$e as Entry>::seed(g)) }
+            fn view<'a>(s: &'a Self::Seed) -> Self::Val<'a> { (<$e as Entry>::view(&s.0), s.1, <$e as Entry>::view(&s.2)) }
+            fn same<'a, 'b>(a: &Self::Val<'a>, b: &Self::Val<'b>) -> bool { <$e as Entry>::same(&a.0, &b.0) && a.1 == b.1 && <$e as Entry>::same(&a.2, &b.2) }
+            fn model<'a>(v: &Self::Val<'a>) -> Option<Item> { Some(Item::array(vec![<$e as Entry>::model(&v.0)?, Item::uint(v.1 as u64), <$e as Entry>::model(&v.2)?])) }
+            fn borrows_from<'a>(v: &Self::Val<'a>, input: &'a [u8]) -> bool { <$e as Entry>::borrows_from(&v.0, input) && <$e as Entry>::borrows_from(&v.2, input) }
+        }
+    }
+}
+
+/// `BTreeMap<u16, E>`: an element in value position of the map iterator.
+macro_rules! mapval_of {
+    ($id:ident, $name:expr, $e:ty, $indef:expr) => {
+        pub struct $id;
+        impl Entry for $id {
+            const NAME: &'static str = $name;
+            const INDEF_OK: bool = $indef;
+            type Seed = BTreeMap<u16, <$e as Entry>::Seed>;
+            type Val<'a> = BTreeMap<u16, <$e as Entry>::Val<'a>>;
+            fn seed(g: &mut Gen) -> Self::Seed { let n = g.len(6); (0 .. n).map(|_| (g.u16(), <$e as Entry>::seed(g))).collect() }
+            fn view<'a>(s: &'a Self::Seed) -> Self::Val<'a> { s.iter().map(|(k, x)| (*k, <$e as Entry>::view(x))).collect() }
+            fn same<'a, 'b>(a: &Self::Val<'a>, b: &Self::Val<'b>) -> bool { a.len() == b.len() && a.iter().zip(b.iter()).all(|((k, x), (l, y))| k == l && <$e as Entry>::same(x, y)) }
+            fn model<'a>(v: &Self::Val<'a>) -> Option<Item> { Some(Item::map(v.iter().map(|(k, x)| Some((Item::uint(*k as u64), <$e as Entry>::model(x)?))).collect::<Option<Vec<_>>>()?)) }
+            fn borrows_from<'a>(v: &Self::Val<'a>, input: &'a [u8]) -> bool { v.values().all(|x| <$e as Entry>::borrows_from(x, input)) }
+        }
+    }
+}
+
+/// `Result<E, E>` and `Bound<E>`: "[variant, payload]" encodings (no independent model, see above).
+macro_rules! res_of {
+    ($id:ident, $name:expr, $e:ty) => {
+        pub struct $id;
+        impl Entry for $id {
+            const NAME: &'static str = $name;
+            type Seed = Result<<$e as Entry>::Seed, <$e as Entry>::Seed>;
+            type Val<'a> = Result<<$e as Entry>::Val<'a>, <$e as Entry>::Val<'a>>;
+            fn seed(g: &mut Gen) -> Self::Seed { if g.bool() { Ok(<$e as Entry>::seed(g)) } else { Err(<$e as Entry>::seed(g)) } }
+            fn view<'a>(s: &'a Self::Seed) -> Self::Val<'a> { match s { Ok(x) => Ok(<$e as Entry>::view(x)), Err(x) => Err(<$e as Entry>::view(x)) } }
+            fn same<'a, 'b>(a: &Self::Val<'a>, b: &Self::Val<'b>) -> bool { match (a, b) { (Ok(x), Ok(y)) | (Err(x), Err(y)) => <$e as Entry>::same(x, y), _ => false } }
+            fn model<'a>(_: &Self::Val<'a>) -> Option<Item> { None }
+            fn borrows_from<'a>(v: &Self::Val<'a>, input: &'a [u8]) -> bool { match v { Ok(x) | Err(x) => <$e as Entry>::borrows_from(x, input) } }
+        }
+    }
+}
+
+macro_rules! bound_of {
+    ($id:ident, $name:expr, $e:ty) => {
+        pub struct $id;
+        impl Entry for $id {
+            const NAME: &'static str = $name;
+            type Seed = std::ops::Bound<<$e as Entry>::Seed>;
+            type Val<'a> = std::ops::Bound<<$e as Entry>::Val<'a>>;
+            fn seed(g: &mut Gen) -> Self::Seed { use std::ops::Bound::*; match g.below(3) { 0 => Included(<$e as Entry>::seed(g)), 1 => Excluded(<$e as Entry>::seed(g)), _ => Unbounded } }
+            fn view<'a>(s: &'a Self::Seed) -> Self::Val<'a> { use std::ops::Bound::*; match s { Included(x) => Included(<$e as Entry>::view(x)), Excluded(x) => Excluded(<$e as Entry>::view(x)), Unbounded => Unbounded } }
+            fn same<'a, 'b>(a: &Self::Val<'a>, b: &Self::Val<'b>) -> bool { use std::ops::Bound::*; match (a, b) { (Included(x), Included(y)) | (Excluded(x), Excluded(y)) => <$e as Entry>::same(x, y), (Unbounded, Unbounded) => true, _ => false } }
+            fn model<'a>(_: &Self::Val<'a>) -> Option<Item> { None }
+            fn borrows_from<'a>(v: &Self::Val<'a>, input: &'a [u8]) -> bool { use std::ops::Bound::*; match v { Included(x) | Excluded(x) => <$e as Entry>::borrows_from(x, input), Unbounded => true } }
+        }
+    }
+}
+
+/// Every container shape over one element entry. `$nil`: the element can encode as null (no `Option` over it);
+/// `$indef`: the element's own arrays/maps (if any) go through the iterator API.
+macro_rules! matrix_row {
+    ($name:expr, $e:ty, $indef:expr, [$v:ident $d:ident $l:ident $a:ident $b:ident $t:ident $m:ident $r:ident $bo:ident] $(, opt = $o:ident)?) => {
+        seq_of!($v, concat!("Vec<", $name, ">"), $e, Vec, $indef);
+        seq_of!($d, concat!("VecDeque<", $name, ">"), $e, VecDeque, $indef);
+        seq_of!($l, concat!("LinkedList<", $name, ">"), $e, LinkedList, $indef);
+        arr2_of!($a, concat!("[", $name, ";2]"), $e, $indef);
+        box_of!($b, concat!("Box<", $name, ">"), $e, $indef);
+        tup_of!($t, concat!("(", $name, ",u8,", $name, ")"), $e, false);
+        mapval_of!($m, concat!("BTreeMap<u16,", $name, ">"), $e, $indef);
+        res_of!($r, concat!("Result<", $name, ",", $name, ">"), $e);
+        bound_of!($bo, concat!("Bound<", $name, ">"), $e);
+        $(opt_of!($o, concat!("Option<", $name, ">"), $e, $indef);)?
+    }
+}
+
+matrix_row!("Token", ETok, true, [MVecTok MDqTok MLlTok MArrTok MBoxTok MTupTok MMapTok MResTok MBndTok]);
+matrix_row!("Option<u8>", EOptU8, true, [MVecOptU8 MDqOptU8 MLlOptU8 MArrOptU8 MBoxOptU8 MTupOptU8 MMapOptU8 MResOptU8 MBndOptU8]);
+matrix_row!("()", EUnit, false, [MVecUnit2 MDqUnit2 MLlUnit2 MArrUnit MBoxUnit MTupUnit MMapUnit MResUnit MBndUnit], opt = MOptUnit);
+matrix_row!("Tag", ETag, true, [MVecTag MDqTag MLlTag MArrTag MBoxTag MTupTag MMapTag MResTag MBndTag], opt = MOptTag);
+matrix_row!("Tagged<0,&str>", ETagged0Str, true, [MVecTgd MDqTgd MLlTgd MArrTgd MBoxTgd MTupTgd MMapTgd MResTgd MBndTgd], opt = MOptTgd);
+matrix_row!("ByteVec", EByteVec, true, [MVecBv MDqBv MLlBv MArrBv MBoxBv MTupBv MMapBv MResBv MBndBv], opt = MOptBv);
+matrix_row!("&ByteSlice", ERefByteSlice, true, [MVecBs MDqBs MLlBs MArrBs MBoxBs MTupBs MMapBs MResBs MBndBs], opt = MOptBs);
+matrix_row!("&str", ERefStr, true, [MVecRs MDqRs MLlRs MArrRs MBoxRs MTupRs MMapRs MResRs MBndRs]);
+matrix_row!("Cow<str>", ECowStr, true, [MVecCow MDqCow MLlCow MArrCow MBoxCow MTupCow MMapCow MResCow MBndCow], opt = MOptCow);
+matrix_row!("f64", EF64, true, [MVecF MDqF MLlF MArrF MBoxF MTupF MMapF MResF MBndF], opt = MOptF);
+matrix_row!("Int", EInt, true, [MVecInt MDqInt MLlInt MArrInt MBoxInt MTupInt MMapInt MResInt MBndInt], opt = MOptInt);
+matrix_row!("Vec<u8>", EVecU8, true, [MVecVec MDqVec MLlVec MArrVec MBoxVec MTupVec MMapVec MResVec MBndVec], opt = MOptVec);
+matrix_row!("(u8,String)", ETuple2, false, [MVecTup MDqTup MLlTup MArrTup MBoxTup MTupTup MMapTup MResTup MBndTup], opt = MOptTup);
+matrix_row!("Bound<i64>", EBound, false, [MVecBnd MDqBnd MLlBnd MArrBnd MBoxBnd MTupBnd MMapBnd MResBnd MBndBnd], opt = MOptBnd);
+matrix_row!("IpAddr", EIpAddr, false, [MVecIp MDqIp MLlIp MArrIp MBoxIp MTupIp MMapIp MResIp MBndIp], opt = MOptIp);
+matrix_row!("bool", EBool, true, [MVecBool MDqBool MLlBool MArrBool MBoxBool MTupBool MMapBool MResBool MBndBool], opt = MOptBool);
+
 /// Invoke `$mac!(EntryType)` for every registry entry, collecting the results in a `Vec`.
 #[macro_export]
 macro_rules! for_each_entry {
@@ -474,6 +652,7 @@ macro_rules! for_each_entry {
             $mac!(EBTreeMapU8U8), $mac!(EBTreeMapStrVec), $mac!(EHashMapU32Str), $mac!(EHashMapStrOptBool),
             $mac!(ERange), $mac!(ERangeFrom), $mac!(ERangeTo), $mac!(ERangeToIncl), $mac!(ERangeIncl), $mac!(EBound),
             $mac!(EDuration), $mac!(ESystemTime), $mac!(EIpAddr), $mac!(EIpv4), $mac!(EIpv6), $mac!(ESockAddr), $mac!(ESockAddrV4), $mac!(ESockAddrV6),
+            $mac!(MVecTok), $mac!(MDqTok), $mac!(MLlTok), $mac!(MArrTok), $mac!(MBoxTok), $mac!(MTupTok), $mac!(MMapTok), $mac!(MResTok), $mac!(MBndTok), $mac!(MVecOptU8), $mac!(MDqOptU8), $mac!(MLlOptU8), $mac!(MArrOptU8), $mac!(MBoxOptU8), $mac!(MTupOptU8), $mac!(MMapOptU8), $mac!(MResOptU8), $mac!(MBndOptU8), $mac!(MVecUnit2), $mac!(MDqUnit2), $mac!(MLlUnit2), $mac!(MArrUnit), $mac!(MBoxUnit), $mac!(MTupUnit), $mac!(MMapUnit), $mac!(MResUnit), $mac!(MBndUnit), $mac!(MOptUnit), $mac!(MVecTag), $mac!(MDqTag), $mac!(MLlTag), $mac!(MArrTag), $mac!(MBoxTag), $mac!(MTupTag), $mac!(MMapTag), $mac!(MResTag), $mac!(MBndTag), $mac!(MOptTag), $mac!(MVecTgd), $mac!(MDqTgd), $mac!(MLlTgd), $mac!(MArrTgd), $mac!(MBoxTgd), $mac!(MTupTgd), $mac!(MMapTgd), $mac!(MResTgd), $mac!(MBndTgd), $mac!(MOptTgd), $mac!(MVecBv), $mac!(MDqBv), $mac!(MLlBv), $mac!(MArrBv), $mac!(MBoxBv), $mac!(MTupBv), $mac!(MMapBv), $mac!(MResBv), $mac!(MBndBv), $mac!(MOptBv), $mac!(MVecBs), $mac!(MDqBs), $mac!(MLlBs), $mac!(MArrBs), $mac!(MBoxBs), $mac!(MTupBs), $mac!(MMapBs), $mac!(MResBs), $mac!(MBndBs), $mac!(MOptBs), $mac!(MVecRs), $mac!(MDqRs), $mac!(MLlRs), $mac!(MArrRs), $mac!(MBoxRs), $mac!(MTupRs), $mac!(MMapRs), $mac!(MResRs), $mac!(MBndRs), $mac!(MVecCow), $mac!(MDqCow), $mac!(MLlCow), $mac!(MArrCow), $mac!(MBoxCow), $mac!(MTupCow), $mac!(MMapCow), $mac!(MResCow), $mac!(MBndCow), $mac!(MOptCow), $mac!(MVecF), $mac!(MDqF), $mac!(MLlF), $mac!(MArrF), $mac!(MBoxF), $mac!(MTupF), $mac!(MMapF), $mac!(MResF), $mac!(MBndF), $mac!(MOptF), $mac!(MVecInt), $mac!(MDqInt), $mac!(MLlInt), $mac!(MArrInt), $mac!(MBoxInt), $mac!(MTupInt), $mac!(MMapInt), $mac!(MResInt), $mac!(MBndInt), $mac!(MOptInt), $mac!(MVecVec), $mac!(MDqVec), $mac!(MLlVec), $mac!(MArrVec), $mac!(MBoxVec), $mac!(MTupVec), $mac!(MMapVec), $mac!(MResVec), $mac!(MBndVec), $mac!(MOptVec), $mac!(MVecTup), $mac!(MDqTup), $mac!(MLlTup), $mac!(MArrTup), $mac!(MBoxTup), $mac!(MTupTup), $mac!(MMapTup), $mac!(MResTup), $mac!(MBndTup), $mac!(MOptTup), $mac!(MVecBnd), $mac!(MDqBnd), $mac!(MLlBnd), $mac!(MArrBnd), $mac!(MBoxBnd), $mac!(MTupBnd), $mac!(MMapBnd), $mac!(MResBnd), $mac!(MBndBnd), $mac!(MOptBnd), $mac!(MVecIp), $mac!(MDqIp), $mac!(MLlIp), $mac!(MArrIp), $mac!(MBoxIp), $mac!(MTupIp), $mac!(MMapIp), $mac!(MResIp), $mac!(MBndIp), $mac!(MOptIp), $mac!(MVecBool), $mac!(MDqBool), $mac!(MLlBool), $mac!(MArrBool), $mac!(MBoxBool), $mac!(MTupBool), $mac!(MMapBool), $mac!(MResBool), $mac!(MBndBool), $mac!(MOptBool),
             $mac!(EInt), $mac!(ETag), $mac!(ETok), $mac!(EOptTok), $mac!(ETaggedOptU8), $mac!(ETaggedOptStr), $mac!(ETagged0Str), $mac!(ETagged55799), $mac!(ETagged24Bytes), $mac!(ETaggedBigU8), $mac!(ETaggedMaxVec),
         ]
     }}
